@@ -255,6 +255,8 @@ def make_iter_models(index):
 
     return [
         (rx(r"^Option::<.*>::or$"), m_opt_or),
+        (rx(r"^<(?:errors::)?RvError as From<(?:errors::)?RvError>>::from$"), lambda ex, st, args, callee, ty: args[0]),
+        (rx(r"^<T as From<T>>::from$"), lambda ex, st, args, callee, ty: args[0]),
         (rx(r"^<(?:std::slice::)?Iter<'_, .*> as Iterator>::rev$"), lambda ex, st, args, callee, ty: ListIterM(list(reversed(_obj(ex, st, args[0]).items)))),
         (rx(r"^<(?:std::iter::)?Rev<(?:std::slice::)?Iter<'_, .*>> as Iterator>::(skip|take)$"), lambda ex, st, args, callee, ty: m_skip_take(ex, st, args, callee)),
         (rx(r"^<(?:std::slice::)?Iter<'_, .*> as Iterator>::(skip|take)$"), lambda ex, st, args, callee, ty: m_skip_take(ex, st, args, callee)),
